@@ -17,6 +17,10 @@ func init() {
 				{Harness: "vh_C12_eval", Unroll: 8, KeepRedirects: []string{"vmParse", "vmAst", "vmGtaRetry", "vmCfg", "vmExecute"}},
 				{Harness: "vh_C12_execute", Unroll: 8, KeepRedirects: []string{"vmGenGlobalVarsFail"}},
 			}
+			bits := 70
+			if tier == "thorough" {
+				bits = 200
+			}
 			rules := []string{"vmRuleErrorf", "vmGoAcceptsBinary", "vmGoAcceptsUnary", "vmGoAcceptsAssign", "vmGoAcceptsConst", "vmGoAcceptsAssignConst"}
 			for op := 0; op < 19; op++ {
 				r = append(r, Oblig{Harness: "vh_C12_binary", Unroll: 24, KeepRedirects: rules, Globals: map[string]int{"vhRuleOp": op}})
@@ -26,7 +30,7 @@ func init() {
 			}
 			r = append(r, Oblig{Harness: "vh_C12_assign", Unroll: 24, KeepRedirects: rules})
 			for ck := 0; ck <= 2; ck++ {
-				r = append(r, Oblig{Harness: "vh_C12_assignconst", Unroll: 24, KeepRedirects: rules, Globals: map[string]int{"vhConstKind": ck}})
+				r = append(r, Oblig{Harness: "vh_C12_assignconst", Unroll: 24, KeepRedirects: rules, Globals: map[string]int{"vhConstKind": ck, "vhConstBits": bits}})
 			}
 			for op := 0; op < 19; op++ {
 				for ck := 0; ck <= 2; ck++ {
@@ -34,13 +38,13 @@ func init() {
 						if left == 1 && (op == 9 || op == 10) {
 							continue // constant << variable takes its type from the context: outside
 						}
-						r = append(r, Oblig{Harness: "vh_C12_binconst", Unroll: 24, KeepRedirects: rules, Globals: map[string]int{"vhRuleOp": op, "vhConstKind": ck, "vhConstLeft": left}})
+						r = append(r, Oblig{Harness: "vh_C12_binconst", Unroll: 24, KeepRedirects: rules, Globals: map[string]int{"vhRuleOp": op, "vhConstKind": ck, "vhConstLeft": left, "vhConstBits": bits}})
 					}
 				}
 			}
 			return r
 		},
-		Bounds:      []string{"every combination of outcomes (error / success) of the stages parse, ast, gtaRetry, cfg; ast may also yield no root", "type rules: 19 binary and 4 unary operators, assignment, on variables of the 17 predeclared basic types; one operand an untyped constant: integer of any value with |v| <= 2^70, true, or a string, on either side"},
+		Bounds:      []string{"every combination of outcomes (error / success) of the stages parse, ast, gtaRetry, cfg; ast may also yield no root", "type rules: 19 binary and 4 unary operators, assignment, on variables of the 17 predeclared basic types; one operand an untyped constant: integer of any value with |v| <= 2^70 (thorough 2^200), true, or a string, on either side"},
 		Assumptions: []string{"the compile stages are replaced by models that fail on command (their own type rules are outside)", "Execute replaced by a counter (eval obligation); in the Execute obligation the real Execute runs with genGlobalVars failing on command"},
 		Stubs:       []string{"(*Interpreter).parse", "(*Interpreter).ast", "(*Interpreter).gtaRetry", "(*Interpreter).cfg", "(*Interpreter).Execute"},
 		Outside:     []string{"type rules beyond binary/unary/assignment on basic types (composite and named types, conversions, builtins, literals, call arguments, channel directions)", "untyped float/complex/rune constants", "the checker's call sites in cfg.go", "code that cfg itself runs while compiling (source imports)", "EvalPath/importSrc"},
